@@ -88,3 +88,81 @@ Proof.
   intros sch WF ops h a z o at_ s' D HG GA K U S. eapply read_after_set_plain; eauto.
   destruct (Pk_run sch WF ops) as [X|[_ X]]. contradiction. exact X.
 Qed.
+
+(* ---------------------------------------------------------------- C10: read your own write, every scalar attribute (unique or not, int or str) *)
+
+Lemma obj_val_get_some : forall s o ob a, get_obj s o = Some ob -> obj_val s o a = oval ob a.
+Proof. intros. unfold obj_val. rewrite H. reflexivity. Qed.
+
+Theorem read_after_set_scalar : forall sch s h a v o at_ s',
+  Inv_shape sch s -> hget s h = Some o -> get_attr sch (obj_ent s o) a = Some at_ -> is_scalar_kind (a_kind at_) = true ->
+  set_op sch s h a v = (s', ROk) ->
+  exists nv, validate s at_ (Some v) = VOk nv /\ snd (read_op sch s' h a) = RVal nv.
+Proof.
+  intros sch s h a v o at_ s' SH HG GA K S.
+  assert (NS : is_set_kind (a_kind at_) = false) by (destruct (a_kind at_); try discriminate K; reflexivity).
+  assert (NR : is_ref_kind (a_kind at_) = false) by (destruct (a_kind at_); try discriminate K; reflexivity).
+  unfold set_op in S. rewrite HG, GA, NS in S.
+  destruct (negb (handles_ok s (arg_handles v))); [discriminate S|].
+  destruct (is_del (obj_st s o)) eqn:D; [discriminate S|].
+  destruct (validate s at_ (Some v)) as [nv| |] eqn:V; try discriminate S.
+  exists nv. split. reflexivity. rewrite NR in S.
+  destruct (get_obj s o) as [ob|] eqn:G; [|unfold obj_st in D; rewrite G in D; discriminate D].
+  destruct (kframe_mark_written sch s o a D) as (_ & _ & _ & KF). destruct (KF o ob G) as (b & Gb & KE).
+  destruct KE as (E1 & _ & E3 & E4 & _ & E6 & E7).
+  set (s1 := mark_written s o a) in *.
+  assert (HH : forall s2, s_handles s2 = s_handles s -> hget s2 h = Some o) by (intros s2 E; unfold hget in *; rewrite E; exact HG).
+  assert (H1 : s_handles s1 = s_handles s) by (unfold s1; apply mark_written_handles).
+  assert (EE : o_ent b = obj_ent s o) by (unfold obj_ent; rewrite G; congruence).
+  assert (NG : is_gone (o_st b) = false).
+  { rewrite <- E4. unfold obj_st in D. rewrite G in D. destruct (o_st ob); try discriminate D; reflexivity. }
+  assert (LT : (a < length (o_vals b))%nat).
+  { rewrite <- E6. rewrite (SH o ob G). apply (get_attr_lt sch _ a at_). unfold obj_ent in GA. rewrite G in GA. exact GA. }
+  assert (NVR : match nv with VRef _ => False | _ => True end).
+  { unfold validate in V. destruct (a_kind at_); try discriminate K; destruct v; try discriminate V;
+    repeat match type of V with context [if ?c then _ else _] => destruct c end; try discriminate V; inversion V; exact I. }
+  (* reading back from a state whose object o is `bb`, with value nv at a *)
+  assert (RD : forall s2 bb, s_handles s2 = s_handles s -> get_obj s2 o = Some bb -> o_ent bb = o_ent b -> o_st bb = o_st b ->
+               oval bb a = Some nv -> snd (read_op sch s2 h a) = RVal nv).
+  { intros s2 bb E2 G2 EN ST OV. unfold read_op. rewrite (HH s2 E2). unfold obj_ent at 1. rewrite G2, EN, EE, GA.
+    assert (KK : match a_kind at_ with KSet _ _ => False | _ => True end) by (destruct (a_kind at_); try discriminate NS; exact I).
+    destruct (a_kind at_) eqn:AK; try contradiction; try discriminate NR;
+    unfold obj_st; rewrite G2, ST, NG; unfold obj_val; rewrite G2, OV; destruct nv; try contradiction; reflexivity. }
+  destruct (negb (a_uniq at_)) eqn:U.
+  - inversion S as [S']. eapply RD.
+    + rewrite upd_obj_handles. exact H1.
+    + rewrite get_upd_obj_same, Gb. reflexivity.
+    + reflexivity.
+    + reflexivity.
+    + unfold oval, ob_put_val, ob_set_vals. cbn [o_vals]. apply nth_upd_nth_same. exact LT.
+  - apply negb_false_iff in U.
+    assert (AU : attr_uniq sch (o_ent ob) a = true).
+    { unfold attr_uniq. unfold obj_ent in GA. rewrite G in GA. rewrite GA. exact U. }
+    destruct (oval_eqb (obj_val s o a) (Some nv)) eqn:OE.
+    + inversion S as [S']. apply oval_eqb_eq in OE. rewrite (obj_val_get_some s o ob a G) in OE.
+      eapply RD; [exact H1|exact Gb|reflexivity|reflexivity|]. rewrite <- (E7 a AU). exact OE.
+    + destruct (key_conflict s1 o (obj_ent s o) a nv); [discriminate S|]. inversion S as [S']. clear S.
+      unfold key_set. rewrite Gb. rewrite <- E3. unfold obj_st in D. rewrite G in D. rewrite D. rewrite EE, Nat.eqb_refl. cbn [negb orb].
+      destruct (oval_eqb (oval b a) (Some nv)) eqn:OE2.
+      * apply oval_eqb_eq in OE2. eapply RD; [exact H1|exact Gb|reflexivity|reflexivity|exact OE2].
+      * match goal with |- snd (read_op sch (upd_obj ?sx o ?f) h a) = _ => set (s3 := sx) end.
+        assert (G3 : get_obj s3 o = Some b).
+        { unfold s3. destruct (oval b a) as [ov|]; [destruct (is_vnone ov)|]; destruct (is_vnone nv); exact Gb. }
+        assert (H3 : s_handles s3 = s_handles s).
+        { unfold s3. destruct (oval b a) as [ov|]; [destruct (is_vnone ov)|]; destruct (is_vnone nv); exact H1. }
+        eapply RD.
+        -- rewrite upd_obj_handles. exact H3.
+        -- rewrite get_upd_obj_same, G3. reflexivity.
+        -- reflexivity.
+        -- reflexivity.
+        -- unfold oval, ob_put_val, ob_set_vals. cbn [o_vals]. apply nth_upd_nth_same. exact LT.
+Qed.
+
+Theorem read_after_set_scalar_all_histories : forall sch, wf_schema sch = true -> forall ops h a v o at_ s',
+  s_dirty (run sch ops) = O -> hget (run sch ops) h = Some o -> get_attr sch (obj_ent (run sch ops) o) a = Some at_ ->
+  is_scalar_kind (a_kind at_) = true -> set_op sch (run sch ops) h a v = (s', ROk) ->
+  exists nv, validate (run sch ops) at_ (Some v) = VOk nv /\ snd (read_op sch s' h a) = RVal nv.
+Proof.
+  intros sch WF ops h a v o at_ s' D HG GA K S. eapply read_after_set_scalar; eauto.
+  destruct (Pk_run sch WF ops) as [X|[_ X]]. contradiction. exact X.
+Qed.
